@@ -48,6 +48,15 @@ Streams (all randomness from run.seed; case counts fixed per tier):
                 the graph captured) and `mixF` bit for bit; clause oracle with its own bookkeeping: in variable mode
                 the factor IS a tf.Variable after every operation (also judged in A, B, C), and a compiled call
                 returns s + f*(q - s) with the LAST value written.
+  H  history    the values returned by ALL calls of a history on ONE object: constructor factor {0 in four argument
+                forms, 1, 1/2} x python / Variable storage x five ways of being built (first call, build(False),
+                build(True), first call inside a QActivation layer, update before any use), then updates to and away
+                from the boundary factors 0 and 1 (numbers, tf.Variables), a call after each (rank 1 / rank 2 tensor,
+                directly or through QActivation; another object of the class used in between); every knob-bearing class,
+                every return form, plus an auto-scaled quantized_linear.  Against `QState.outs` bit for bit; clause
+                oracle with its own books on EVERY call: output = s + f*(q - s) with f the last value written before
+                that call, and bit-identical to a fresh object constructed with that constant (nothing derived from
+                the factor — an identity flag, a cached 1 - f, a skipped branch — may outlive the call).
 """
 import itertools
 import fractions
@@ -642,7 +651,10 @@ def stream_storage(run, tier, Q, tf, rng):
       seqs.append([alpha_x[int(i)] for i in rng.integers(0, len(alpha_x), size=n)])
     s_np = sur(kw, xb)
     xq = _xq_ref(Q, cname, kw, form, xb)
+    n_sys = len(seqs) - n_rand
     for si, seq in enumerate(seqs):
+      if tier == "quick" and si >= n_sys and (si - n_sys) % 5 == 4:
+        continue   # quick budget: 200 of the 250 seeded sequences are executed (trimmed when stream H was added)
       use_vars0 = bool(si % 2)
       f0 = [1.0, 0.5][(si // 2) % 2]
       use_ste = None if is_lin else bool((si // 4) % 2)
@@ -999,6 +1011,8 @@ def stream_sched(run, tier, Q, tf, rng):
       ev = [["T", "E", "B", "F", "e"][int(i)] for i in rng.choice(5, size=n, p=[0.12, 0.3, 0.3, 0.2, 0.08])]
       if r % 2 == 0:
         ev[0] = "T"
+      if tier == "quick" and r == 1 and ci % 3 == 2:
+        continue   # quick budget: 720 of 810 seeded histories executed (drawn all the same; trimmed for stream H)
       jobs.append((c, mnames[(ci + r + 1) % len(mnames)], ev, "random"))
   # exhaustive short histories over the event alphabet for a few configurations
   ex_cfgs = [(0, 2, 3.0, 1, "epoch", 0), (1, 2, 2.0, 2, "step", 0), (1, 1, 3.0, 1, "step", 1),
@@ -1614,6 +1628,8 @@ def _alias_histories(tier, rng, is_lin):
         h.append(("local", i, ("set_use_vars", bool(rng.integers(0, 2)))))
       else:
         h.append(C(i))
+    if tier == "quick" and _ % 4 == 3:
+      continue   # quick budget: 30 of 40 executed (drawn all the same; trimmed when stream H was added)
     out.append(("random", kinds, h))
   return out
 
@@ -2455,6 +2471,219 @@ def stream_compiled(run, tier, Q, tf, rng):
   logger.setLevel(old_level)
 
 
+# --------------------------------------------------------------------------- stream H (calls along a history)
+
+_H_EXTRA = [
+    # data-dependent scale (the paths an "identity fast path" would skip): judged against the fresh twin only
+    ("linear_4_0_auto_po2", "quantized_linear", dict(bits=4, integer=0, symmetric=1, alpha="auto_po2"), _sur_id, "linear"),
+]
+_H_SEQS = [(0.0, 0.25), (1.0, 0.3), (0.25, 0.0), (0.3, 1.0), (0.0, 1.0), (1.0, 0.0), (0.25, 0.3), (0.5,)]
+_H_FIRST = ("call", "build_F", "build_T", "layer", "none")
+_H_ZERO = (lambda: 0.0, lambda: 0, lambda: np.float32(0), lambda: np.float64(0))
+
+
+def _h_text(cname, kw, ctor, ops, shapes):
+  out = ["q = %s(**%r, %s)" % (cname, kw, ", ".join("%s=%r" % kv for kv in ctor.items()))]
+  for op in ops:
+    k = op[0]
+    if k == "call":
+      out.append("y = q(x.reshape%r)" % (shapes[op[1]],))
+    elif k == "layer":
+      out.append("y = QActivation(q)(x.reshape%r)" % (shapes[op[1]],))
+    elif k == "bystander":
+      out.append("%s(**%r, qnoise_factor=%r)(x)  # another object of the class" % (cname, kw, op[1]))
+    else:
+      out.append(_gop_text(op))
+  return "; ".join(out)
+
+
+def stream_history(run, tier, Q, tf, rng):
+  """the values returned by ALL calls of a history on one object: the factor in force at a call is the last value
+  written before it, whatever the factor was when the object was constructed / built / first called / last updated.
+  Boundary factors 0 and 1 (where an implementation is tempted to skip the mix or the quantization) at every such
+  moment, then updates away from and back to them; both storages; all six classes, every return form."""
+  import qkeras
+  cfg = {c[0]: c for c in CONFIGS}
+  members = [cfg[l] for l in STORAGE_CFG] + _H_EXTRA
+  xb = np.array([0.3125, -1.75, 0.5, 2.6875, -0.0625, 0.7, 1.4453125, 0.9375], dtype=np.float32)
+  shapes = [(8,), (2, 4)]
+  rot = int(rng.integers(0, len(_H_SEQS)))
+  n_seq = 3 if tier == "quick" else len(_H_SEQS)
+  twins, refs = {}, {}
+
+  def ref(label, cname, kw, form, si):
+    if (label, si) not in refs:
+      xq = None
+      if kw.get("alpha") is None:
+        if form == "linear":
+          t = _mk(Q, cname, kw)
+          t._build()
+          xx = tf.constant(xb.reshape(shapes[si]), dtype=tf.float32)
+          xq = np.asarray((t._scale_clip_and_round(xx, t.quantization_scale) * t.quantization_scale).numpy(),
+                          dtype=np.float32).reshape(-1)
+        else:
+          xq = _call_shaped(_mk(Q, cname, kw, qnoise_factor=1.0, use_ste=False), xb, shapes[si])
+      refs[(label, si)] = xq
+    return refs[(label, si)]
+
+  def twin(label, cname, kw, ste, store_var, fval, si):
+    key = (label, ste, store_var, repr(fval), si)
+    if key not in twins:
+      ste_kw = {} if ste is None else {"use_ste": ste}
+      twins[key] = _call_shaped(_mk(Q, cname, kw, qnoise_factor=fval, use_variables=store_var, **ste_kw), xb, shapes[si])
+    return twins[key]
+
+  lines, meta = [], []
+  n_hist = n_calls = 0
+  for label, cname, kw, sur, form in members:
+    s_np = sur(kw, xb)
+    tie = kw.get("alpha") is None
+    for ste in _forms(form):
+      fname = _form_name(form, ste)
+      ste_kw = {} if ste is None else {"use_ste": ste}
+      ci = 0
+      for f_init in (0.0, 1.0, 0.5):
+        for use_vars in (False, True):
+          if tier == "quick" and use_vars and f_init == 0.5:
+            continue      # quick: Variable storage only with the boundary constructor factors
+          for first in _H_FIRST:
+            ci += 1
+            for k in range(n_seq):
+              seq = _H_SEQS[(rot + ci + k * 2 + (k // 4)) % len(_H_SEQS)]
+              hi = n_hist
+              n_hist += 1
+              f_arg = _H_ZERO[hi % 4]() if f_init == 0.0 else f_init
+              ctor = dict(qnoise_factor=f_arg, use_variables=use_vars, **ste_kw)
+              ops = []
+              if first == "call":
+                ops.append(("call", hi % 2))
+              elif first == "build_F":
+                ops += [("build", False), ("call", 0)]
+              elif first == "build_T":
+                ops += [("build", True), ("call", 0)]
+              elif first == "layer":
+                ops.append(("layer", hi % 2))
+              for ui, v in enumerate(seq):
+                ops.append(("update_from_var", v) if (hi + ui) % 3 == 2 else ("update", v))
+                if hi % 5 == 4 and ui == len(seq) - 1:
+                  ops.append(("bystander", 0.0 if v != 0.0 else 1.0))
+                ops.append(("call", (hi + ui + 1) % 2) if (hi + ui) % 7 else ("layer", (hi + ui + 1) % 2))
+              # ---- run the history on ONE real object; the oracle keeps its own books
+              q = _mk(Q, cname, kw, **ctor)
+              init = _obs(tf, q)
+              cur = core.frac(f_init)
+              built_at, built_by = None, None   # factor (class) and operation at the moment the object was built
+              sops, ys, verdict = [], [], None
+              for oi, op in enumerate(ops):
+                k0 = op[0]
+                y = None
+                try:
+                  if k0 == "update":
+                    q.update_qnoise_factor(float(op[1]) if (hi + oi) % 2 else np.float64(op[1]))
+                    cur = core.frac(float(op[1]))
+                    sops.append(_op_line(op))
+                  elif k0 == "update_from_var":
+                    q.update_qnoise_factor(tf.Variable(op[1], dtype=tf.float32, trainable=False))
+                    cur = core.frac(np.float32(op[1]))
+                    sops.append(_op_line(op))
+                  elif k0 == "build":
+                    if built_by is None:
+                      built_at, built_by = _fclass(float(cur)), "explicit_build"
+                    q.build(var_name=None, use_variables=op[1])
+                    sops.append(_op_line(op))
+                  elif k0 == "bystander":
+                    _call_shaped(_mk(Q, cname, kw, qnoise_factor=op[1], **ste_kw), xb, shapes[0])
+                  else:
+                    if built_by is None:
+                      built_at, built_by = _fclass(float(cur)), "first_call" if k0 == "call" else "first_call_in_layer"
+                    si = op[1]
+                    if k0 == "layer":
+                      y = np.asarray(qkeras.QActivation(q)(tf.constant(xb.reshape(shapes[si]), dtype=tf.float32)).numpy(),
+                                     dtype=np.float32).reshape(-1)
+                    else:
+                      y = _call_shaped(q, xb, shapes[si])
+                    sops.append({"op": "call"})
+                except Exception as e:  # pylint: disable=broad-except
+                  if verdict is None:
+                    verdict = ("reused_object_raises", {"cls": cname, "op": k0, "built_by": built_by},
+                               {"cfg": label, "error": type(e).__name__ + ": " + str(e)[:160],
+                                "replay": _h_text(cname, kw, ctor, ops[:oi + 1], shapes)})
+                  break
+                if y is None:
+                  continue
+                n_calls += 1
+                ys.append(y)
+                if verdict is not None:
+                  continue
+                store_var = isinstance(q.qnoise_factor, tf.Variable)
+                fval = float(np.float32(float(cur))) if store_var else float(cur)
+                key = {"cls": cname, "form": fname, "built_by": built_by, "factor_when_built": built_at,
+                       "store": "var" if store_var else "py"}
+                replay = _h_text(cname, kw, ctor, ops[:oi + 1], shapes) + "  with x = %r" % (xb.tolist(),)
+                if y.shape != xb.shape:
+                  verdict = ("every_call_interpolates_with_the_factor_in_force", key,
+                             {"cfg": label, "observed_number_of_elements": int(y.size), "expected": int(xb.size),
+                              "replay": replay})
+                  continue
+                xq = ref(label, cname, kw, form, op[1])
+                bad = _judge_mix(y, s_np, xq, fval, fname) if xq is not None else None
+                if bad is not None:
+                  i, want, kind = bad
+                  verdict = ("every_call_interpolates_with_the_factor_in_force", key,
+                             {"cfg": label, "call_number": len(ys), "factor_in_force": fval, "x": float(xb[i]),
+                              "observed": float(y[i]), "surrogate": float(s_np[i]), "quantized": float(xq[i]),
+                              "expected": float(want), "judged": kind, "factor_attribute_reads": _obs(tf, q)["v"],
+                              "replay": replay})
+                  continue
+                yt = twin(label, cname, kw, ste, store_var, fval, op[1])
+                if not np.array_equal(y, yt):
+                  i = int(np.flatnonzero(y != yt)[0])
+                  verdict = ("kth_call_equals_fresh_object_with_that_constant_factor", key,
+                             {"cfg": label, "call_number": len(ys), "factor_in_force": fval, "x": float(xb[i]),
+                              "observed": float(y[i]), "fresh_object": float(yt[i]),
+                              "factor_attribute_reads": _obs(tf, q)["v"], "replay": replay})
+              if tie:
+                # probe element order is the same for both shapes (row-major reshape), so one (s, q) vector serves
+                xq0 = ref(label, cname, kw, form, 0)
+                lines.append({"op": "outs", "form": fname, "init": init, "ops": sops,
+                              "s": core.enc_list(s_np), "q": core.enc_list(xq0)})
+                meta.append((label, cname, kw, ctor, ops, ys, verdict, True))
+              else:
+                meta.append((label, cname, kw, ctor, ops, ys, verdict, False))
+  outs = iter(core.run_driver("C07", lines))
+  n_snap = 0
+  for label, cname, kw, ctor, ops, ys, verdict, tied in meta:
+    run.case(("history", label, repr(sorted((k, repr(v)) for k, v in ctor.items())), repr(ops)),
+             sample={"cfg": label, "ctor": {k: repr(v) for k, v in ctor.items()}, "history": [list(o) for o in ops]}
+             if len(run.samples) < 8 and label == "linear_4_1" else None)
+    run.compared += 1
+    run.count("history_first_%s" % (ops[0][0] if ops[0][0] != "update_from_var" else "update"))
+    mirrored = True
+    if tied:
+      out = next(outs)
+      n_snap += int(out["snap0_differs"] > 0) + int(out["snap1_differs"] > 0)
+      rows = out["ys"]
+      for ci_, y in enumerate(ys):
+        if ci_ >= len(rows):
+          break
+        ym = core.dec_list(rows[ci_])
+        yi = [core.frac(v) for v in y]
+        if len(yi) != len(ym) or yi != ym:
+          i = [k for k in range(min(len(yi), len(ym))) if yi[k] != ym[k]][:1]
+          run.disagree("history-call", {"cfg": label, "ctor": {k: repr(v) for k, v in ctor.items()},
+                                        "ops": [list(o) for o in ops], "call": ci_, "x": float(xb[i[0]]) if i else None},
+                       float(y[i[0]]) if i else int(y.size), float(ym[i[0]]) if i else len(ym))
+          mirrored = False
+          break
+    if verdict is not None:
+      run.violate(verdict[0], verdict[1], verdict[2], mirrored=mirrored and verdict[0] != "reused_object_raises")
+  run.extra["history_objects"] = n_hist
+  run.extra["history_calls_judged"] = n_calls
+  run.extra["history_objects_where_a_build_time_flag_would_differ"] = n_snap
+  if n_snap < 20:
+    raise core.InfraError("stream H no longer reaches histories that distinguish a build-time decision from the code")
+
+
 # --------------------------------------------------------------------------- entry
 
 def run(run: core.Run, tier: str):
@@ -2501,7 +2730,12 @@ def run(run: core.Run, tier: str):
       "update(1), update(0), update(<tf.Variable 3/4>), each followed by a call through ONE tf.function; 4 (40 "
       "thorough) seeded histories per class over updates / calls / compiled calls / build(T/F) / use_variables flips; 2 "
       "python-mode histories per class; 12 Keras models (QActivation, input shape known or not) x QNoiseScheduler step "
-      "schedules with a compiled training step; non-trivial = distinct (class, form, route, factor, history).")
+      "schedules with a compiled training step; non-trivial = distinct (class, form, route, factor, history). "
+      "H: 6 classes x return form (+ auto-scaled quantized_linear) x constructor factor {0, 1, 1/2} x storage x 5 ways of "
+      "being built x 3 (thorough 8) of 8 update sequences over {0, 1, 1/4, 0.3, 1/2} (rotated by the seed), a call after "
+      "every step; non-trivial = distinct (class, constructor arguments, history). Quick budgets trimmed when H was added "
+      "(all draws still made, so the other streams see the same random state): B executes 200 of its 250 seeded sequences "
+      "per class, C 720 of 810 seeded histories, E 30 of 40 seeded interleavings per class.")
   stream_mix(run, tier, Q, tf, rng)
   stream_storage(run, tier, Q, tf, rng)
   stream_sched(run, tier, Q, tf, rng)
@@ -2510,6 +2744,7 @@ def run(run: core.Run, tier: str):
   stream_lattice(run, tier, Q, tf, rng)
   stream_reuse(run, tier, Q, tf, rng)
   stream_compiled(run, tier, Q, tf, rng)
+  stream_history(run, tier, Q, tf, rng)
   run.assumptions += [
       "TF eager elementwise float32 kernels (neg, add, sub, mul) are correctly rounded IEEE operations applied "
       "one at a time (device 1); python float arithmetic is IEEE float64",
